@@ -41,7 +41,7 @@ ASSUMPTIONS = [
     'reference = straight-alpha float `over`, opacity multiplies alpha, transparent_color makes |c-key|<=tol fully '
     'transparent, clip=true hides everything outside the coverage, without clip everything outside the coverage '
     'bbox is transparent and the part inside the bbox but outside the polygon is not judged (doc: "tries to serve the full image")',
-    'tolerance 2 levels per composited layer image (premultiplied for RGBA results), JPEG 12 on blocks that are smooth in the reference',
+    'tolerance 2 levels per composited layer image (premultiplied for RGBA results); JPEG: + 10 + the range of the reference within 17 px, pixels with a range > 40 not judged',
     'not judged: pixels within 1.1 px of a coverage edge; pixels where a sub-requested (coverage-limited) image varies '
     'by more than 3 levels within +-1 px; for TRANSPARENT=TRUE + JPEG the pixels that are not opaque in the reference',
     'a request that renders exactly one layer image with opacity < 1 may show it faded against the background or unchanged '
@@ -61,7 +61,6 @@ RANGES = [[14.0, None], [None, 14.0], [28.0, 7.0], [7.0, None], [None, 28.0]]  #
 SIG_BLEND = 'C14/merge/opaque-result/blend-ignores-layer-alpha'
 SIG_OPZERO = 'C14/prune/opacity-zero-counts-as-opaque'
 SIG_COMBRANGE = 'C14/combined/source-outside-res-range-requested'
-SIG_COMBCLIP = 'C14/combined/clip-flag-of-other-source-lost'
 SIG_COMBKEY = 'C14/combined/transparent_color-keyed-after-server-side-merge'
 SIG_BBOXCLIP = 'C14/clip/bbox-coverage/internal-error'
 SIG_GROUPRANGE = 'C14/group/child-layer-res-range-ignored'
@@ -285,7 +284,7 @@ def sources(draw, ncov):
     s = {
         'host': draw(st.sampled_from([0, 0, 0, 1])),
         'transparent': transparent,
-        'opacity': draw(st.sampled_from([None, None, None, None, None, 0.5, 0.3, 0.8, 0.25, 1.0, 0.0])),
+        'opacity': draw(st.sampled_from([None, None, None, None, None, None, None, None, 0.5, 0.3, 0.8, 1.0, 0.0])),
         'tc': tc,
         'cov': None,
         'range': None,
@@ -303,7 +302,7 @@ def sources(draw, ncov):
 
 @st.composite
 def requests(draw, names, ncov):
-    n = draw(st.integers(1, min(5, len(names))))
+    n = min(draw(st.sampled_from([1, 1, 2, 2, 2, 3, 3, 4, 5])), len(names), 5)
     order = draw(st.permutations(names))
     kind = draw(st.sampled_from(['free', 'free', 'edge', 'edge', 'inside'] if ncov else ['free']))
     if kind == 'free':
@@ -328,7 +327,7 @@ def requests(draw, names, ncov):
 def cases(draw):
     ncov = draw(st.sampled_from([0, 1, 2, 2, 3]))
     covs = [draw(coverages()) for _ in range(ncov)]
-    nsrc = draw(st.integers(1, 6))
+    nsrc = draw(st.sampled_from([1, 2, 2, 3, 3, 4, 4, 5, 5, 6, 6]))
     srcs = [draw(sources(ncov)) for _ in range(nsrc)]
     if nsrc >= 2 and draw(st.booleans()):
         # make a combinable neighbour pair likely: same host, no opacity, same colour key, same coverage geometry
@@ -354,6 +353,20 @@ def cases(draw):
             lay['range'] = draw(st.sampled_from(RANGES))
         layers.append(lay)
         i += k
+    multi = [lay for lay in layers if len(lay['sources']) >= 2]
+    if multi and draw(st.integers(0, 4)) == 0:
+        # a resolution-limited opaque base below an unlimited overlay from another server inside ONE layer: the layer
+        # as a whole renders at every resolution, its opaque member only inside its range
+        lay = multi[draw(st.integers(0, len(multi) - 1))]
+        a, b = srcs[lay['sources'][0]], srcs[lay['sources'][1]]
+        a.update({'transparent': False, 'tc': None, 'cov': None, 'opacity': None, 'range': draw(st.sampled_from(RANGES))})
+        a['field'].pop('cells', None)
+        b.update({'host': 1 - a['host'], 'range': None, 'transparent': True, 'opacity': None})
+        if b['field']['alpha'][0] == 'opaque':
+            b['field']['alpha'] = ['stripes', 130.0, 0.5, 0.6, 0.8, 0.13]
+            if b['field']['deliver'] == 'rgb':
+                b['field']['deliver'] = 'rgba'
+        lay['range'] = None
     group = None
     if len(layers) >= 2 and draw(st.integers(0, 3)) == 0:
         a = draw(st.integers(0, len(layers) - 2))
@@ -633,16 +646,26 @@ def flatten_exp(exp):
     return exp[..., :3]
 
 
-def smooth_blocks(exp_rgb, block=16, limit=6.0):
-    h, w = exp_rgb.shape[:2]
-    ok = np.zeros((h, w), bool)
-    for y in range(0, h, block):
-        for x in range(0, w, block):
-            b = exp_rgb[y:y + block, x:x + block]
-            rngs = b.reshape(-1, b.shape[-1]).max(axis=0) - b.reshape(-1, b.shape[-1]).min(axis=0)
-            if rngs.max() <= limit:
-                ok[y:y + block, x:x + block] = True
-    return ok
+def local_range(exp_rgb, radius=17):
+    """Largest channel range of the reference within +-radius pixels (every JPEG 16x16 MCU that can touch the
+    pixel plus one pixel of chroma bleeding): the JPEG tolerance of a pixel grows with it, and pixels with a
+    range above 40 levels are not judged."""
+    hi = exp_rgb.copy()
+    lo = exp_rgb.copy()
+    for axis in (0, 1):
+        h2, l2 = hi.copy(), lo.copy()
+        n = exp_rgb.shape[axis]
+        for d in range(1, min(radius, n - 1) + 1):
+            a = [slice(None)] * 3
+            b = [slice(None)] * 3
+            a[axis], b[axis] = slice(d, None), slice(None, n - d)
+            a, b = tuple(a), tuple(b)
+            h2[a] = np.maximum(h2[a], hi[b])
+            h2[b] = np.maximum(h2[b], hi[a])
+            l2[a] = np.minimum(l2[a], lo[b])
+            l2[b] = np.minimum(l2[b], lo[a])
+        hi, lo = h2, l2
+    return (hi - lo).max(axis=-1)
 
 
 # ------------------------------------------------------------------------------------------------
@@ -725,8 +748,6 @@ def check_request(case, rq, app, up, st_, open_sigs, ri):
         if e.s['opacity'] is not None and e.opacity == 0.0 and entry_opaque_decl(e) and seen_layers.index(e.li) > 0:
             opzero_construct = True
     combrange_construct = any((not a.visible) or (not b.visible) for a, b in comb_pairs)
-    combclip_construct = any(a.visible and b.visible and a.s['cov'] is not None and a.s['cov'][1] != b.s['cov'][1]
-                             for a, b in comb_pairs)
     combkey_construct = any(a.visible and b.visible and a.s['tc'] is not None for a, b in comb_pairs)
     bboxclip_construct = any(e.visible and e.maybe and e.s['cov'] is not None and e.s['cov'][1]
                              and case['covs'][e.s['cov'][0]]['kind'] == 'bbox' for e in entries)
@@ -738,7 +759,7 @@ def check_request(case, rq, app, up, st_, open_sigs, ri):
         st_.excluded['precondition: non-transparent source with empty areas above a combinable neighbour'] += 1
         return None
     for construct, s_ in ((has_blend_construct, SIG_BLEND), (opzero_construct, SIG_OPZERO),
-                          (combrange_construct, SIG_COMBRANGE), (combclip_construct, SIG_COMBCLIP),
+                          (combrange_construct, SIG_COMBRANGE),
                           (combkey_construct, SIG_COMBKEY), (bboxclip_construct, SIG_BBOXCLIP),
                           (grouprange_construct, SIG_GROUPRANGE)):
         if construct and s_ in open_sigs:
@@ -777,8 +798,9 @@ def check_request(case, rq, app, up, st_, open_sigs, ri):
             judged &= exp[..., 3] >= 254.5
             st_.notes['jpeg-transparent-request: non-opaque reference pixels not judged'] += 1
         flat = flatten(exp, rq['bgcolor'])[..., :3]
-        judged &= smooth_blocks(flat)
-        tol = tol + 10.0
+        rng = local_range(flat)
+        judged &= rng <= 40.0
+        tol = tol + 10.0 + rng
         exp_cmp = np.concatenate([flat, np.full(shape + (1,), 255.0)], axis=-1)
     else:
         exp_cmp = exp
@@ -811,6 +833,11 @@ def check_request(case, rq, app, up, st_, open_sigs, ri):
                 nt.add('opaque-above-others')
     if any(not e.visible for e in entries):
         classes.append('source-out-of-res-range')
+    for k, e in enumerate(entries):
+        if (k > 0 and not e.visible and e.layer_renders and not e.s['transparent'] and e.s['tc'] is None
+                and e.s['cov'] is None and any(o.visible and o.li != e.li for o in entries[:k])):
+            classes.append('opaque-source-out-of-range-in-rendered-layer-above-others')
+            break
     if any(a.visible and b.visible for a, b in comb_pairs):
         nt.add('combinable-pair')
     if any(len(c) >= 2 for c in calls):
@@ -849,7 +876,7 @@ def check_request(case, rq, app, up, st_, open_sigs, ri):
             alt = compose(entries, rq, shape, opacity_of=lambda j, en: 1.0 if j == k else en.opacity, skip=others)
             if fmt == 'jpeg':
                 alt = np.concatenate([flatten(alt, rq['bgcolor'])[..., :3], np.full(shape + (1,), 255.0)], axis=-1)
-                j2 = judged & smooth_blocks(alt[..., :3])
+                j2 = judged & (local_range(alt[..., :3]) <= 40.0)
             else:
                 j2 = judged
             bad2, _, _ = compare(got, alt, j2, tol, transparent_result)
@@ -873,13 +900,6 @@ def check_request(case, rq, app, up, st_, open_sigs, ri):
             if any(not e.visible for e in es):
                 return core.Violation(SIG_COMBRANGE, 'combined upstream request LAYERS=%s contains a source that is outside its '
                                       'min_res/max_res at resolution %g: %s' % (','.join(c), res, where), vcase)
-    for c in calls:
-        if len(c) >= 2:
-            es = [e for e in entries if e.name in c]
-            clips = set(bool(e.s['cov'][1]) for e in es if e.s['cov'] is not None)
-            if len(clips) == 2:
-                return core.Violation(SIG_COMBCLIP, 'combined upstream request LAYERS=%s mixes sources with clip: true and clip: false '
-                                      'on the same coverage; only the first source\'s flag is applied: %s' % (','.join(c), where), vcase)
     for c in calls:
         if len(c) >= 2:
             es = [e for e in entries if e.name in c]
@@ -932,6 +952,10 @@ _OPEN = {}
 def _open_signatures():
     if 'v' not in _OPEN:
         _OPEN['v'] = core.open_signatures(PROPERTY)
+        # verification aid for proposed repairs: run against a scratch copy with fixes_proposed/C14-*.patch applied
+        # and VERIF_C14_NO_EXCLUSIONS=1 - nothing is excluded, every finding's construct is generated and judged
+        if os.environ.get('VERIF_C14_NO_EXCLUSIONS'):
+            _OPEN['v'] = set()
     return _OPEN['v']
 
 
@@ -971,7 +995,7 @@ def check_case(case, st_, collect=None):
 
 def random_shard(shard, nshards, seed, tier):
     st_ = core.Stats()
-    n = (9600 if tier == 'quick' else 160000) // nshards
+    n = (14400 if tier == 'quick' else 240000) // nshards
     _SCRATCH['dir'] = tempfile.mkdtemp(prefix='c14_')
     try:
         core.hyp_search(cases(), check_case, st_, max_examples=n, seed=seed, shrink=False)
